@@ -513,7 +513,39 @@ Definition invert_leaf (l : leaf) : leaf := mkLeaf (lcol l) (lcmp l) (larg l) (n
 Section ClauseFilter.
   Variable mt : matcher_table.
 
-  (* OrClause.filter batches consecutive leaves into one call of qf.filter (shared mask) *)
+  Section Loops.
+  (* the recursive call is a section variable so that it stays outside the fixpoints below
+     (which lets the termination checker see through them, as it does for List.map) *)
+  Variable cf : clause -> frame -> outcome frame.
+
+  (* the loop of AndClause.filter: every sub-clause filters the result of the previous one *)
+  Fixpoint and_loop (cs : list clause) (g : frame) : outcome frame :=
+    match cs with
+    | [] => Ok g
+    | c' :: rest => do g' <- cf c' g; and_loop rest g'
+    end.
+
+  (* the loop of OrClause.filter: consecutive leaves are batched into one call of qf.filter (shared mask),
+     every other sub-clause is evaluated on the original frame; results are merged by orFrames *)
+  Fixpoint or_loop (f : frame) (cs : list clause)
+           (pending : list leaf) (acc : option frame) : outcome frame :=
+    let flush (acc : option frame) : outcome (option frame) :=
+      match pending with
+      | [] => Ok acc
+      | _ => do nf <- filter_leaves mt f (rev pending); Ok (Some (or_frames f acc nf))
+      end in
+    match cs with
+    | [] =>
+        do acc' <- flush acc;
+        match acc' with Some r => Ok r | None => Panic end   (* nil pointer dereference *)
+    | CLeaf l :: rest => or_loop f rest (l :: pending) acc
+    | c' :: rest =>
+        do acc' <- flush acc;
+        do nf <- cf c' f;
+        or_loop f rest [] (Some (or_frames f acc' nf))
+    end.
+  End Loops.
+
   Fixpoint clause_filter (c : clause) (f : frame) {struct c} : outcome frame :=
     match c with
     | CLeaf l => filter_leaves mt f [l]
@@ -521,30 +553,11 @@ Section ClauseFilter.
     | CAnd cs =>
         if ferr f then Ok f
         else if clause_err c then Ok (with_err f)
-        else (fix go (cs : list clause) (g : frame) {struct cs} : outcome frame :=
-                match cs with
-                | [] => Ok g
-                | c' :: rest => do g' <- clause_filter c' g; go rest g'
-                end) cs f
+        else and_loop (fun c' g => clause_filter c' g) cs f
     | COr cs =>
         if ferr f then Ok f
         else if clause_err c then Ok (with_err f)
-        else (fix orl (cs : list clause) (pending : list leaf) (acc : option frame) {struct cs} : outcome frame :=
-                let flush (acc : option frame) : outcome (option frame) :=
-                  match pending with
-                  | [] => Ok acc
-                  | _ => do nf <- filter_leaves mt f (rev pending); Ok (Some (or_frames f acc nf))
-                  end in
-                match cs with
-                | [] =>
-                    do acc' <- flush acc;
-                    match acc' with Some r => Ok r | None => Panic end
-                | CLeaf l :: rest => orl rest (l :: pending) acc
-                | c' :: rest =>
-                    do acc' <- flush acc;
-                    do nf <- clause_filter c' f;
-                    orl rest [] (Some (or_frames f acc' nf))
-                end) cs [] None
+        else or_loop (fun c' g => clause_filter c' g) f cs [] None
     | CNot c' =>
         if ferr f then Ok f
         else if clause_err c then Ok (with_err f)
